@@ -62,11 +62,12 @@ def part_scripts(chk):
         chk.count(("script", depth, tuple(existing), json.dumps(ops)), nontrivial=len(res["log"]) >= 3)
     chk.sample({"kind": "queue-script", "depth": cases[0][1][0], "existing": cases[0][1][1], "ops": cases[0][1][2],
                 "impl_calls": results[0]["log"]})
-    fn = qd.TRACE_FN if private else qd.TRACE_FN_NOCOUNTERS
-    cmp_ = core.CoqCompare("c06_script", qd.IMPORTS, fn, "trace_eqb", qd.TRACE_IN, qd.TRACE_OUT, shard=150)
+    cmp_ = core.CoqCompare("c06_script", qd.IMPORTS, qd.trace_fn(counters=private), "trace_eqb", qd.TRACE_IN, qd.TRACE_OUT, shard=150)
     for (kind, (depth, existing, ops)), res in zip(cases, results):
         if res["error"]:
             continue   # reported by the oracle as a violation (impl raised)
+        if not private:
+            res = dict(res, obs=qd.strip_counters(res["obs"]))
         cmp_.add(qd.case_input(depth, existing, ops), qd.trace_term(res),
                  {"depth": depth, "existing": existing, "ops": ops, "impl_calls": res["log"], "impl_states": res["obs"]})
     bad = cmp_.run()
@@ -113,9 +114,10 @@ def part_node(chk, tmp):
         chk.count(("node", json.dumps(sc, sort_keys=True)), nontrivial=len(res["launches"]) >= 2)
         if not res["error"]:
             pend.append((sc, res))
-    fn = qd.TRACE_FN if private else qd.TRACE_FN_NOCOUNTERS
-    cmp_ = core.CoqCompare("c06_node", qd.IMPORTS, fn, "trace_eqb", qd.TRACE_IN, qd.TRACE_OUT, shard=100)
+    cmp_ = core.CoqCompare("c06_node", qd.IMPORTS, qd.trace_fn(counters=private), "trace_eqb", qd.TRACE_IN, qd.TRACE_OUT, shard=100)
     for sc, res in pend:
+        if not private:
+            res = dict(res, obs=qd.strip_counters(res["obs"]))
         cmp_.add(qd.case_input(res["depth"], [], res["ops"]), qd.trace_term(res),
                  {"scenario": sc, "impl_calls": res["log"], "impl_states": res["obs"], "ops": res["ops"]})
     chk.sample({"kind": "node", "scenario": cases[0], "impl_launches(name, live, rows)": qd.run_node(cases[0], tmp)["launches"]})
@@ -130,7 +132,8 @@ def part_hpc(chk, tmp):
     rng = chk.rng
     quick = chk.tier == "quick"
     cases = qd.directed_hpc() + [qd.gen_hpc(rng) for _ in range(60 if quick else 900)]
-    cmp_ = core.CoqCompare("c06_hpc", qd.IMPORTS, qd.TRACE_FN_NOLIVE, "trace_eqb", qd.TRACE_IN, qd.TRACE_OUT, shard=150)
+    pend = []
+    private = True
     dist = {"scenarios": 0, "rounds": 0, "max_nodes": {}, "sbatch_ok": 0, "sbatch_failed": 0, "rounds_full_at_start": 0,
             "rounds_overfull_at_start": 0, "finished_during_round": 0, "max_active_vs_limit": {}}
     for sc in cases:
@@ -155,9 +158,8 @@ def part_hpc(chk, tmp):
             if r["depth"] != want_depth:
                 chk.tie_broken("HpcSubmitter queue depth is not max_nodes (None -> sys.maxsize)",
                                json.dumps({"scenario": sc, "impl_depth": r["depth"], "expected": want_depth}))
-            fn_obs = r["obs"] if r["private"] else [dict(o, njobs=0, ncompleted=0) for o in r["obs"]]
-            cmp_.add(qd.case_input(r["depth"], r["existing"], r["ops"]), qd.trace_term({"obs": fn_obs, "log": r["log"]}),
-                     {"scenario": sc, "round": {k: v for k, v in r.items() if k != "obs"}})
+            private = private and r["private"]
+            pend.append((sc, r))
             oks = [e[3] for e in r["log"] if e[0] == "run"]
             dist["sbatch_ok"] += sum(1 for o in oks if o)
             dist["sbatch_failed"] += sum(1 for o in oks if not o)
@@ -169,6 +171,11 @@ def part_hpc(chk, tmp):
             dist["max_active_vs_limit"][key] = dist["max_active_vs_limit"].get(key, 0) + 1
         chk.count(("hpc", json.dumps(sc, sort_keys=True)), nontrivial=sum(len(r["new_ids"]) for r in res["rounds"]) >= 1)
     chk.sample({"kind": "hpc-rounds", "scenario": {k: v for k, v in cases[1].items() if k != "jobs"}})
+    cmp_ = core.CoqCompare("c06_hpc", qd.IMPORTS, qd.trace_fn(counters=private, live=False), "trace_eqb", qd.TRACE_IN, qd.TRACE_OUT, shard=150)
+    for sc, r in pend:
+        obs = r["obs"] if private else qd.strip_counters(r["obs"])
+        cmp_.add(qd.case_input(r["depth"], r["existing"], r["ops"]), qd.trace_term({"obs": obs, "log": r["log"]}),
+                 {"scenario": sc, "round": {k: v for k, v in r.items() if k != "obs"}})
     bad = cmp_.run()
     chk.oblige("correspondence Queue.trace(hpc round) vs HpcSubmitter.run on a real Cluster (%d rounds)" % len(cmp_.cases),
                not bad, "first differing: %s" % bad[:5])
@@ -176,11 +183,38 @@ def part_hpc(chk, tmp):
     chk.notes.setdefault("input_distribution", {})["hpc_rounds"] = dist
 
 
-PARTS = [part_scripts, part_node, part_hpc]
+def part_coverage(chk, tmp):
+    """which lines of the modelled source the correspondence inputs reach (measured, not assumed)"""
+    try:
+        import coverage
+    except ImportError:
+        chk.notes["source_coverage"] = "coverage module not available"
+        return
+    import random
+    import jade.jobs.job_queue as jq
+    rng = random.Random(chk.seed + 17)
+    cov = coverage.Coverage(include=[jq.__file__], data_file=None)
+    cov.start()
+    try:
+        for depth, existing, ops in qd.directed_scripts() + [qd.gen_script(rng) for _ in range(150)]:
+            qd.run_script(depth, existing, ops)
+        for sc in qd.directed_nodes():
+            qd.run_node(sc, tmp)
+    finally:
+        cov.stop()
+    _, stmts, _, missing, _ = cov.analysis2(jq.__file__)
+    src = open(jq.__file__).read().split("\n")
+    chk.notes["source_coverage"] = {"file": "jade/jobs/job_queue.py", "statements": len(stmts), "not_reached": len(missing),
+                                    "not_reached_lines": [f"{n}: {src[n - 1].strip()[:70]}" for n in missing][:40]}
+
+
+PARTS = [part_scripts, part_node, part_hpc, part_coverage]
 
 
 def run(chk):
-    proofs_ok = core.standard_proof_phase(chk, "C06")
+    # Queue.v uses no generated table (depth arithmetic, cancel return code, sys.maxsize are tied by the
+    # correspondence); a non-matching name keeps the other properties' translators out of this check
+    proofs_ok = core.standard_proof_phase(chk, "C06", gen_needed=("(none: C06 uses no Gen table)",))
     logging.disable(logging.CRITICAL)
     tmp = tempfile.mkdtemp(prefix="verif_c06_")
     try:
@@ -208,12 +242,27 @@ def run(chk):
 def replay(path):
     obj = json.load(open(path))
     print(json.dumps(obj, indent=1)[:6000])
-    if obj.get("component", "").startswith("JobQueue") and "ops" in obj:
-        core.ensure_env()
-        logging.disable(logging.CRITICAL)
+    comp = obj.get("component", "")
+    core.ensure_env()
+    logging.disable(logging.CRITICAL)
+    probs = None
+    if comp.startswith("JobQueue") and "ops" in obj:
         ops = [tuple(o) for o in obj["ops"]]
         res = qd.run_script(obj["depth"], obj["existing"], ops)
         probs = qd.script_oracle(obj["depth"], obj["existing"], ops, res)
-        print("replayed on impl:", probs or "no problem reproduced")
-        return 1 if probs else 0
-    return 0
+    elif comp.startswith("JobRunner") and "scenario" in obj:
+        tmp = tempfile.mkdtemp(prefix="verif_c06r_")
+        try:
+            probs = qd.node_oracle(obj["scenario"], qd.run_node(obj["scenario"], tmp))
+        finally:
+            shutil.rmtree(tmp, ignore_errors=True)
+    elif comp.startswith("HpcSubmitter") and "scenario" in obj:
+        tmp = tempfile.mkdtemp(prefix="verif_c06r_")
+        try:
+            probs = qd.hpc_oracle(obj["scenario"], qd.run_hpc(obj["scenario"], tmp))
+        finally:
+            shutil.rmtree(tmp, ignore_errors=True)
+    if probs is None:
+        return 0
+    print("replayed on impl:", probs or "no problem reproduced")
+    return 1 if probs else 0
